@@ -128,6 +128,28 @@ func checkC14(c *Ctx) {
 				sig = append(sig, "H")
 				c.Count("host_changes", 1)
 			}
+			if op > 0 && chance(r, 25) {
+				// the directories change behind the (manually refreshed) cache and a request
+				// is refused: an injection, failing or not, is not a refresh
+				for i, d := range p.Phys {
+					if p.Exists[i] {
+						os.WriteFile(filepath.Join(d, fmt.Sprintf("zz-behind-%d.json", op)), []byte(fmt.Sprintf(`{"cdiVersion":"0.6.0","kind":"behind.org/dev","devices":[{"name":"d%d","containerEdits":{"env":["BEHIND=1"]}}]}`, op)), 0o644)
+						break
+					}
+				}
+				bad := []string{devs[r.Intn(len(devs))], "unknown.org/dev=none"}
+				var rerr error
+				if pv, st := guard(func() { _, rerr = cache.InjectDevices(genOCI(r), bad...) }); pv != nil {
+					cs.Violation("panic", nil, fmt.Sprintf("InjectDevices%v panics: %v", bad, pv), map[string]any{"stack": st})
+					return
+				}
+				history = append(history, fmt.Sprintf("a Spec file appears behind the cache; refused InjectDevices%v", bad))
+				c.Count("refused_injections_after_a_change_on_disk", 1)
+				if img := cacheImage(cache); rerr == nil || img != image0 {
+					cs.Violation("cache-modified", map[string]string{"op": "refused-injection"}, fmt.Sprintf("the cached Specs/devices changed after a refused InjectDevices%v (err=%v) on a manually refreshed cache whose directories had changed on disk:\n%s", bad, rerr, firstDiff(image0, img)), map[string]any{"population": p.Describe(), "history": history})
+					return
+				}
+			}
 			initial := genOCI(r)
 			a, b, want := cloneOCI(initial), cloneOCI(initial), cloneOCI(initial)
 			var run func(o *oci.Spec) error
@@ -256,6 +278,7 @@ func checkC14(c *Ctx) {
 	})
 	c.Floor("sequences_2+_host_resolved_ops", 50)
 	c.Floor("host_changes", 50)
+	c.Floor("refused_injections_after_a_change_on_disk", 30)
 	c.Floor("writebacks", 100)
 }
 
